@@ -147,6 +147,7 @@ class Ctx:
         H["core::cmp::impls::<impl core::cmp::PartialEq<&B> for &A>::eq"] = self.m_ref_eq
         H["core::str::<impl str>::char_indices"] = self.m_char_indices
         H["core::iter::Iterator::nth"] = self.m_nth
+        H["<core::str::Chars<'a> as core::iter::Iterator>::next"] = self.m_chars_next
         H["<core::str::CharIndices<'a> as core::iter::Iterator>::next"] = self.m_next
         H["core::char::methods::<impl char>::is_numeric"] = self.m_is_numeric
         H["core::char::methods::<impl char>::len_utf8"] = self.m_len_utf8
@@ -317,6 +318,25 @@ class Ctx:
             return [(st, eng.mk_option(dest_tid, None))]
         if any(e[0] != "c" for e in els[:k + 1]):
             return NotImplemented
+        char_tid = eng.types[dest_tid]["variants"][1]["ftys"][0]
+        return [(st, eng.mk_option(dest_tid, Int(els[k][1], char_tid)))]
+
+    def m_chars_next(self, eng, st, c, args, dest_tid, t):
+        """s.chars().next() (and further next() calls) on a template: the characters in order"""
+        ref = args[0]
+        it = eng.deref(st, ref) if isinstance(ref, Ref) else None
+        if not (isinstance(it, IterV) and it.ikind == "chars" and isinstance(it.n, int) and isinstance(ref, Ref) and ref.key is not None):
+            return NotImplemented
+        s = _str_of(eng, st, it.a)
+        els = self.els_of(s) if s is not None else None
+        if els is None or (not isinstance(s, TStr) and s.s is None):
+            return NotImplemented
+        k = it.n
+        if k >= len(els):
+            return [(st, eng.mk_option(dest_tid, None))]
+        if any(e[0] != "c" for e in els[:k + 1]):
+            return NotImplemented
+        eng.write_key(st, ref.key, ref.proj, IterV("chars", a=it.a, n=k + 1))
         char_tid = eng.types[dest_tid]["variants"][1]["ftys"][0]
         return [(st, eng.mk_option(dest_tid, Int(els[k][1], char_tid)))]
 
